@@ -605,7 +605,7 @@ def run(ctx):
             if got >= 40:
                 break
         kinds[kind] = got
-        if got == 0:
+        if got == 0 and not (ctx.violations or ctx.known_hits):
             raise MachineryError("no trace offered a place for the negative control %s" % kind)
     ctx.negative_controls("PickedTrace", "Trace.cfg", badtr, name="corrupted results %s" % kinds)
     ctx.assume("every peptide of the table is a peptide of the digest (unique to a group or shared): the code refuses a "
